@@ -540,9 +540,9 @@ pub fn run(mode: Mode, ctx: &mut Ctx) -> Vec<Violation> {
     let t = ctx.tier;
 
     if mode == Mode::C05 {
-        out.extend(run_prop(ctx, "api", t.pick(6_000, 200_000), 2000, api_msg(512), |ctx, c| api_roundtrip(ctx, c)));
+        out.extend(run_prop(ctx, "api", t.pick(60_000, 600_000), 2000, api_msg(512), |ctx, c| api_roundtrip(ctx, c)));
         // occasionally very large messages (up to 64 KiB total)
-        out.extend(run_prop(ctx, "api-large", t.pick(200, 4_000), 500, api_msg(4096), |ctx, c| {
+        out.extend(run_prop(ctx, "api-large", t.pick(1_000, 10_000), 500, api_msg(4096), |ctx, c| {
             let total: usize = c.fields.iter().map(|f| f.1.len()).sum();
             if total > 65_000 {
                 return Ok(());
@@ -580,14 +580,14 @@ pub fn run(mode: Mode, ctx: &mut Ctx) -> Vec<Violation> {
     out.extend(v);
 
     // (c) structured mutants
-    out.extend(run_prop(ctx, "mutants", t.pick(30_000, 600_000), 3000, mut_case(64), |ctx, c| {
+    out.extend(run_prop(ctx, "mutants", t.pick(300_000, 3_000_000), 3000, mut_case(64), |ctx, c| {
         let base = c.base.to_ref().encode();
         let x = apply_muts(&base, c.base.fields.len(), &c.muts);
         let kind = format!("mut-{}", mut_kind(&c.muts[0]));
         ctx.sample("mutant", 3, c);
         check(mode, ctx, &x, &kind)
     }));
-    out.extend(run_prop(ctx, "mutants-large", t.pick(300, 6_000), 500, mut_case(4096), |ctx, c| {
+    out.extend(run_prop(ctx, "mutants-large", t.pick(2_000, 20_000), 500, mut_case(4096), |ctx, c| {
         let base = c.base.to_ref().encode();
         if base.len() > 65_536 {
             return Ok(());
@@ -599,7 +599,7 @@ pub fn run(mode: Mode, ctx: &mut Ctx) -> Vec<Violation> {
     if mode == Mode::C06 {
         // random byte strings of any length 0..=65536
         let lens = prop_oneof![4 => 0usize..=64, 3 => 0usize..=2048, 1 => 0usize..=65_536];
-        out.extend(run_prop(ctx, "random", t.pick(6_000, 120_000), 1000, bytes(lens).prop_map(|b| RawCase { bytes: b }), |ctx, c| {
+        out.extend(run_prop(ctx, "random", t.pick(40_000, 400_000), 1000, bytes(lens).prop_map(|b| RawCase { bytes: b }), |ctx, c| {
             check(mode, ctx, &c.bytes.0, "random")
         }));
         // arithmetic-targeting: count in a fixed list × small bodies
@@ -607,7 +607,7 @@ pub fn run(mode: Mode, ctx: &mut Ctx) -> Vec<Violation> {
         out.extend(run_prop(
             ctx,
             "count-arith",
-            t.pick(6_000, 120_000),
+            t.pick(60_000, 600_000),
             1000,
             (counts, proptest::collection::vec(boundary_word(), 0..12)).prop_map(|(c, ws)| {
                 let mut b = c.to_le_bytes().to_vec();
@@ -618,7 +618,7 @@ pub fn run(mode: Mode, ctx: &mut Ctx) -> Vec<Violation> {
             }),
             |ctx, c| check(mode, ctx, &c.bytes.0, "count-arith"),
         ));
-        out.extend(run_prop(ctx, "nested-display", t.pick(8_000, 150_000), 2000, nested_case(), |ctx, c| {
+        out.extend(run_prop(ctx, "nested-display", t.pick(80_000, 800_000), 2000, nested_case(), |ctx, c| {
             let x = nested_bytes(c);
             ctx.sample("nested", 3, c);
             check(mode, ctx, &x, &format!("nested-shape{}", c.shape % 4))
